@@ -7,9 +7,9 @@ import (
 	"github.com/gofiber/fiber/v2"
 	"github.com/junioryono/godi/v4"
 	godifiber "github.com/junioryono/godi/v4/fiber"
-	"github.com/valyala/fasthttp"
 	"github.com/junioryono/godi/v4/zzverif/kit"
 	"github.com/junioryono/godi/v4/zzverif/vrt"
+	"github.com/valyala/fasthttp"
 )
 
 // H_FiberConc: two requests in flight at once through one middleware instance;
